@@ -2,6 +2,7 @@ import GlonaxModel.Thm.C11
 import GlonaxModel.Thm.C08
 import GlonaxModel.Thm.C01
 import GlonaxModel.Model.Can
+import GlonaxModel.Thm.C20
 /-! THEOREMS C06: no CAN frame can crash reception; short frames are normalised. -/
 namespace Glonax.Thm.C06
 open Glonax J1939 Drv Consts
@@ -52,5 +53,30 @@ theorem C06_engine_keeps_working (sa : Nat) (hsa : sa < 256) (h : List VolvoOp) 
   have h1 := this.1
   simp only [List.all_cons, Bool.and_eq_true] at h1
   exact h1.1
+
+/-- what the totality results above are ABOUT is the code of the current tree: the parameter groups each driver's `parse`
+has an arm for, the arms that refuse foreign senders, the destination guard (C11) and the arms of the authority's request
+responder with its own-address guard (C20), all regenerated from the source, are the ones of this model.  A new arm - in
+a driver or in the responder - is code the theorems above do not cover, and breaks this obligation. -/
+theorem C06_receive_paths_as_modelled :
+    (∀ k ∈ Kind.all, Thm.C11.sameArms (parseTable k) k.arms = true ∧ parseDaGuard k = k.daGuarded) ∧
+    ((servedRequestPgns.all ([pgnAddressClaimed, pgnSoftwareIdentification, pgnTimeDate].contains ·) &&
+      [pgnAddressClaimed, pgnSoftwareIdentification, pgnTimeDate].all (servedRequestPgns.contains ·)) = true ∧
+     requestOwnAddressGuard = true) :=
+  ⟨Thm.C11.C11_parse_tables_as_modelled, Thm.C20.C20_served_requests_as_modelled⟩
+
+/-- the request responder of the model answers or ignores every frame (it has no failing case), and what it hands on to
+the drivers is exactly the frames that are not requests -/
+theorem C06_responder_total (cfg : Auth.NetCfg) (f : Frame) :
+    (pgn f.id = pgnRequest → ∃ fr, Auth.respond cfg f = some fr ∧ fr.length ≤ 1) ∧
+    (pgn f.id ≠ pgnRequest → Auth.respond cfg f = none) := by
+  constructor
+  · intro hp
+    rw [Thm.C20.C20_responder]
+    simp only [hp, ne_eq, not_true_eq_false, if_false]
+    repeat' split
+    all_goals exact ⟨_, rfl, by simp⟩
+  · intro hp
+    simp [Auth.respond, hp]
 
 end Glonax.Thm.C06
